@@ -140,6 +140,13 @@ CHECKS = {
         note="Accesses are attributed to the package by the calling frame's file. Implicit special-method calls are protocol calls by construction.",
         technique="stateless exhaustive exploration of the implementation with an attribute-access monitor and a notification reference model",
     ),
+    "C01": dict(
+        category="model_checking",
+        text="Explicit-state model checking of the real one-trial kernel of MonteCarlo.step() on lattice versions of the four solvable systems (harmonic particles with Box/Ball/Sphere/composite proposals, rigid dipole in a field with rotation moves, ideal gas at constant pressure on a log-volume lattice, ideal gas at constant chemical potential on 27 insertion sites). From every state reached by BFS every generator answer of a coarse inversion-closed menu is enumerated with exact branch probabilities: (1) every captured acceptance threshold equals min(1, pi(y)/pi(x)) of the analytic target computed from the harness potential; (2) accepted -> the configuration shown to the criteria, otherwise the old state, bitwise; (3) the kernel of a trial following a live trial equals the kernel of a fresh simulation at the same state; (4) where the menu is closed under inversion (checked per edge) detailed balance holds on every edge between expanded states, one strongly connected component, a self-loop; (5) the dipole chain is closed (6 bond directions): its stationary vector equals exp(x cos) to 1e-9. L2: orientation law of Rotation/TranslationRotation on K^3 quantile grids has vanishing l=1,2 moments. L3: Verlet followed by momentum flip is a volume-preserving involution.",
+        design_ref="4-C01",
+        note="What is verified is the exact kernel of the real code on lattices plus proposal laws on grids; the passage to the continuum averages is the standard reversibility + irreducibility argument; PCG64 equidistribution is trusted. States off the lattices and N above the bound are not covered.",
+        technique="explicit-state model checking of the implementation's transition kernel (BFS over states, exhaustive enumeration of generator answers with exact probabilities) against the analytic target",
+    ),
 }
 
 NA_REASON = "check not built yet in this session (design in DESIGN.md); no claim is made"
